@@ -360,6 +360,44 @@ def job_subspace(job):
     return res, bad
 
 
+def job_children_multi(job):
+    """factory(children=[([v1, v2], child)]): the child is attached under every declared parent value, every attached
+    child is a separate copy and reports exactly its own matching parent value"""
+    spec = job['pc']
+    ptype = spec['ptype']
+    vals = [dec(x) for x in job['values']]
+    child = pc_lib.ParameterConfig.factory('c', bounds=(0, 1))
+    kw = {'children': [(vals, child)]}
+    if ptype == 'INTEGER':
+        kw['bounds'] = (dec(spec['bounds'][0]), dec(spec['bounds'][1]))
+        lo, hi, fv = kw['bounds'][0], kw['bounds'][1], None
+    else:
+        kw['feasible_values'] = fv = [dec(x) for x in spec['feasible']]
+        lo = hi = None
+    out = outcome(lambda: pc_lib.ParameterConfig.factory('p', **kw))
+    valid = all(member_native(ptype, lo, hi, fv, v) for v in vals) and len({internal_native(ptype, v) for v in vals if member_native(ptype, lo, hi, fv, v)}) == len(vals)
+    res = {'raised': out['raised'], 'oracle_valid': valid}
+    if not valid:
+        return res, out['raised'] is None
+    if out['raised'] is not None:
+        return res, True
+    p = out['value']
+    seen, bad = [], False
+    for v in vals:
+        key = internal_native(ptype, v)
+        sub = p._children.get(key)
+        got = list(sub.parameters) if sub is not None else []
+        if len(got) != 1 or got[0].name != 'c':
+            bad = True
+            res.setdefault('missing_under', []).append(repr(key))
+            continue
+        mpv = list(got[0].matching_parent_values)
+        res.setdefault('matching_parent_values', {})[repr(key)] = repr(mpv)
+        bad = bad or mpv != [key] or got[0] is child or any(got[0] is o for o in seen)
+        seen.append(got[0])
+    return res, bad
+
+
 # ---------------------------------------------------------------------------------------- bounded stand-ins
 def _sub_shapes(depth):
     """shapes of a subspace under one parent value: () | (parent,) | (parent, leaf); parent shapes recursive."""
@@ -566,7 +604,7 @@ def findings():
 
 
 JOBS = {'contains': job_contains, 'assert_correct_type': job_assert_correct_type, 'factory': job_factory,
-        'space_add': job_space_add, 'add_param': job_add_param, 'assert_contains': job_assert_contains, 'add_trial': job_add_trial, 'subspace': job_subspace}
+        'space_add': job_space_add, 'add_param': job_add_param, 'assert_contains': job_assert_contains, 'add_trial': job_add_trial, 'subspace': job_subspace, 'children_multi': job_children_multi}
 
 
 def main(argv):
